@@ -170,7 +170,19 @@ fn gen_s(r: &mut Prng, big: bool) -> Case {
                 ops.push(reg_op(&mut case, h));
                 any_reg = true;
             } else {
-                let e = match r.below(10) {
+                let e = match r.below(12) {
+                    10 => {
+                        // a deeply nested (60..100 levels) but perfectly legal cold program
+                        let mut e = lit_i(1);
+                        for i in 0..(60 + r.usize(40)) {
+                            e = if i % 2 == 0 { bin("*", e, lit_i(1)) } else { Expr::List(vec![e]) };
+                        }
+                        e
+                    }
+                    11 => {
+                        // side effects on the thread's own kept context: a call that ran twice shows
+                        Expr::List(vec![bin("=", rf("cnt"), bin("*", rf("v"), lit_i(2))), bin("=", rf("v"), bin("*", rf("v"), lit_i(3))), rf("v")])
+                    }
                     0..=5 => {
                         let h = *r.pick(&hot);
                         hot_use(r, h, &hot)
